@@ -9,12 +9,16 @@ package main
 import (
 	"bytes"
 	"fmt"
+	"sort"
 	"strings"
 	"time"
 
 	dbm "github.com/cometbft/cometbft-db"
 	abci "github.com/cometbft/cometbft/abci/types"
 	sdk "github.com/cosmos/cosmos-sdk/types"
+	authtypes "github.com/cosmos/cosmos-sdk/x/auth/types"
+	upgradetypes "github.com/cosmos/cosmos-sdk/x/upgrade/types"
+	"github.com/medibloc/panacea-core/v2/app"
 	aoltypes "github.com/medibloc/panacea-core/v2/x/aol/types"
 	pnfttypes "github.com/medibloc/panacea-core/v2/x/pnft/types"
 )
@@ -132,6 +136,74 @@ func monC09NodeConfig(s *Stream) {
 		}
 		if dumpsOf(a, a.QueryCtx()) != dumpsOf(b, b.QueryCtx()) {
 			return "fail #committed-state-differs"
+		}
+		return "pass"
+	}))
+}
+
+// mon.c09.upgrade-replicas: several replicas execute the same blocks across the latest software upgrade (the handler
+// runs in every process).  Application hashes, block results and the account listing (addresses with their account
+// numbers) must be the same on all of them at every height.
+func monC09UpgradeReplicas(s *Stream) {
+	s.Emit("mon.c09.upgrade-replicas", guard(func() string {
+		accts := rtAccts()
+		const n = 5
+		var cs []*Chain
+		for i := 0; i < n; i++ {
+			c, err := NewChain(dbm.NewMemDB(), tmpHome(), accts, 100000, nil)
+			if err != nil {
+				return "pass #no-chain"
+			}
+			cs = append(cs, c)
+		}
+		plan := app.Upgrades[len(app.Upgrades)-1].UpgradeName
+		t := cs[0].Time
+		accountsOf := func(c *Chain) string {
+			var parts []string
+			c.App.AccountKeeper.IterateAccounts(c.QueryCtx(), func(a authtypes.AccountI) bool {
+				parts = append(parts, fmt.Sprintf("%s#%d", a.GetAddress().String(), a.GetAccountNumber()))
+				return false
+			})
+			sort.Strings(parts)
+			return strings.Join(parts, ",")
+		}
+		planHeight := cs[0].Height + 2 // scheduled inside the next block: the binary must meet the plan at the block after it
+		for bl := 0; bl < 5; bl++ {
+			t = t.Add(5 * time.Second)
+			var ref []string
+			var refHash []byte
+			refAccts := ""
+			for i, c := range cs {
+				var rs []string
+				var h []byte
+				if bl == 0 {
+					c.Begin(t)
+					if err := c.App.UpgradeKeeper.ScheduleUpgrade(c.DeliverCtx(), upgradetypes.Plan{Name: plan, Height: planHeight}); err != nil {
+						return "pass #cannot-schedule " + err.Error()
+					}
+					c.End()
+					h = c.Commit()
+				} else {
+					rs, h = runBlock(c, t, nil) // a halt in the upgrade block is a panic, caught by guard
+				}
+				ac := accountsOf(c)
+				if i == 0 {
+					ref, refHash, refAccts = rs, h, ac
+					continue
+				}
+				if strings.Join(rs, "\n") != strings.Join(ref, "\n") {
+					return fmt.Sprintf("fail #block-results-differ between replicas at height %d", c.Height)
+				}
+				if !bytes.Equal(h, refHash) {
+					return fmt.Sprintf("fail #apphash-differs between replicas at height %d", c.Height)
+				}
+				if ac != refAccts {
+					return fmt.Sprintf("fail #account-listing-differs between replicas at height %d", c.Height)
+				}
+			}
+		}
+		if cs[0].App.UpgradeKeeper.GetDoneHeight(cs[0].QueryCtx(), plan) != planHeight {
+			return "pass #upgrade-did-not-run"
 		}
 		return "pass"
 	}))
